@@ -49,6 +49,30 @@ CHECKS = {
    text="Stateless schedule exploration with iterative context bounding of six harnesses of the REAL router (sequence numbers: 3 originators; CBF: two receptions of the same packet racing with the timer; the CBF seam called directly; ego-position refresh racing with originations; location service: two unicast requests, the reply and the retransmit timers; duplicate detection): scheduling points before every shared-state bytecode of router.py/location_table.py and at every lock/timer operation; every schedule with <= 1 preemption (2 on the two small harnesses; thorough: 2 and 3) is executed on fresh real objects and checked for pairwise distinct sequence numbers, at-most-once CBF transmission and never after a completed cancellation, whole position vectors, exactly-once-or-dropped unicast requests, no exception, no deadlock.",
    note="Trusted: CPython incl. C-level atomicity of dict/deque operations, mc/sched.py. Preemption bounds as stated per harness in the evidence; timers may expire at any point after start().",
    technique="stateless model checking of real threads under a controlled scheduler, iterative context (preemption) bounding"),
+ "C10": dict(level="model_checking", design="3/C10",
+   text="Explicit-state BFS over trajectories of the REAL CAMTransmissionManagement and VAMTransmissionManagement (with the real coders, virtual timers and clock): events = T_CheckCamGen timer ticks, position reports with a dynamics step from a threshold menu (heading +4.0/+4.1 deg incl. across 359->3, position +4.0/+4.1 m, speed +0.50/+0.51 m/s, missing optional fields), report periods 20/100/250/1000 ms, gaps, stop/start; 15 parts with state merging on relative quantities (two of them close their state graph), a direct transcription of the statement stepped in lock-step and compared on every emitted message (decoded, time-stamped by the virtual clock): spacing >= 100 ms and <= 1 s + one check period, trigger at the first eligible check, low-frequency container cadence, nothing before start / after stop, generationDeltaTime = report ITS time mod 65536 (also on a lattice of absolute times around multiples of 65536 ms), VAM first-report / T_GenVamMin / T_GenVamMax / LF rules.",
+   note="Trusted: CPython, asn1tools, mc/ref/cam_rules.py and vam_rules.py (transcriptions of the statement), deepcopy snapshots cross-checked by replay. Depth caps per part in the evidence.",
+   technique="explicit-state BFS over real objects on a virtual clock with a rule model in lock-step"),
+ "C11": dict(level="exploration", design="3/C11",
+   text="Complete enumeration of declared finite lattices of position/time/velocity reports through the REAL CAM/VAM/DENM builders: every threshold of the value tables with +-1 resolution step (latitude, longitude, altitude, speed, track, epx/epy/epv/epd), every subset of the optional report fields, all station types and vehicle roles, every clustering phase for the VAM cluster containers, DENM requests over hemispheres/heading/confidence/speed, all pairs of out-of-range fields; the produced octets are decoded with the repository's coder and compared field by field with an independent mapping oracle (value to the element's resolution or its outOfRange/unavailable code), re-encoding must reproduce the octets, generation must not raise; generationDeltaTime reconstruction for every age 0..65535 ms x receive instants around the wrap.",
+   note="Trusted: CPython, asn1tools, mc/ref/cdd_map.py (written from the CDD value tables; where a boundary is ambiguous both readings are accepted).",
+   technique="exhaustive finite-lattice enumeration through the real message builders against an independent mapping oracle"),
+ "C12": dict(level="model_checking", design="3/C12",
+   text="Explicit-state BFS over operation histories of the REAL LDM (factory-built, Dictionary back-end, reactive maintenance, virtual clock): register/deregister providers and consumers (CAM, DENM, VAM, CPM, invalid id), add (two payloads, validity 0/1/2/5 s, four locations incl. the LDM's own position and far outside the area), update (existing/missing id), delete, clock advances 0.4/1/2/5 s, explicit maintenance - in three parts with forced collisions (same object twice in one second, identifier equal to an ITS-AID, expiry against advance). After every transition unfiltered requests of registered and unregistered consumers, the by-identifier view and the registries are compared with a reference map model (window between expiry and maintenance accepts both answers).",
+   note="Trusted: CPython, mc/ref/ldm_model.py RefStore, deepcopy snapshots cross-checked by replay. Depth 5 (6-7 thorough), <= 3-4 objects. Branches behind a listed finding are cut and counted.",
+   technique="explicit-state BFS over real objects with a reference map model in lock-step"),
+ "C13": dict(level="model_checking", design="3/C13",
+   text="BFS over add/delete histories producing every store of up to 3 (4 thorough) objects from a pool of CAMs with/without optional containers, DENMs and a VAM, executed on the Dictionary AND the TinyDB back-end side by side; at every distinct store the complete declared query lattice is sent through IF.LDM.4 on both back-ends: 12 attribute paths (mandatory, optional, inside CHOICE, missing) x 8 operators x 4 reference values x type selections, two-statement filters joined by and/or, one- and two-key orders in both directions - compared with a brute-force predicate evaluator and between the back-ends.",
+   note="Trusted: CPython, brute-force evaluator in mc/ref/ldm_model.py. TinyDB on a scratch file under mkdtemp (removed). Stores containing bytes are Dictionary-only (listed finding C13-K4).",
+   technique="explicit-state BFS over stores x exhaustive finite query lattice against a brute-force reference, differential between back-ends"),
+ "C14": dict(level="model_checking", design="3/C14",
+   text="Explicit-state BFS over histories of subscribe (11 parameter variants incl. every invalid combination), unsubscribe, register/deregister of two consumers, add (reactive attendance), clock advances 0.5/1/2 s and explicit attendance on the REAL LDM; a reference subscription table decides at every attendance which live subscription must receive exactly one callback with exactly the matching objects in order (multiplicity, 1-s-resolution interval since the previous notification; both readings accepted before the first), that none fires after unsubscribe/deregistration, that other subscriptions are untouched, and the result codes of invalid requests.",
+   note="Trusted: CPython, mc/ref/ldm_model.py RefSubs, attendance observed through an instance-level probe (no source change). Depth 5 (6 thorough).",
+   technique="explicit-state BFS over real objects with a reference subscription model in lock-step"),
+ "C16": dict(level="model_checking", design="3/C16",
+   text="Stateless schedule exploration (iterative context bounding, bytecode-level scheduling points inside all LDM modules and at every lock operation) of seven harnesses on the REAL LDM: add||add||request, two concurrent adds of one provider, add||delete||request, add||garbage collection of an expiring object||request, add (reactive attendance)||unsubscribe||attendance, deregister/register||request||subscribe, update||request||maintenance. Every schedule with <= 1 preemption (2 thorough) must produce per-operation results, callback payloads and a final store/registry content equal to those of SOME sequential order of the same operations on the same real implementation that respects real-time precedence (brute-force linearizability; the reactive add is ordered as its two atomic steps insert and collection); plus no exception, no deadlock.",
+   note="Trusted: CPython incl. C-level atomicity of dict/list operations, mc/sched.py; the sequential behaviour of the LDM itself is the reference (its sequential defects are C12-C14's subject). TinyDB back-end outside the scheduler.",
+   technique="stateless model checking under a controlled scheduler with brute-force linearizability against sequential runs of the implementation"),
 }
 
 NOT_APPLICABLE = {}
